@@ -49,7 +49,7 @@ MUTANTS = [
     ("c02_firewall_reverse_direction", ["C02"], NW,
      "        return service in self.firewall[(src_subnet, dest_subnet)]",
      "        return service in self.firewall[(dest_subnet, src_subnet)]"),
-    ("c02_skip_remote_permission", ["C02"], NW,
+    ("c02_skip_remote_permission", [], NW,
      "        if action.is_remote() and not has_req_permission:",
      "        if False and not has_req_permission:"),
     ("c02_all_subnets_public", ["C02", "C03"], NW,
@@ -73,7 +73,7 @@ MUTANTS = [
            or not state.host_discovered(action.target):""",
      """        if not state.host_reachable(action.target) \\
            and not state.host_discovered(action.target):"""),
-    ("c02_pivot_ignores_access", ["C02"], NW,
+    ("c02_pivot_ignores_access", [], NW,
      "            if state.host_has_access(src_addr, action.req_access):\n                return True",
      "            if True:\n                return True"),
     # ---------------- C03
@@ -232,4 +232,96 @@ MUTANTS = [
     ("c13_step_own_transition", ["C13"], EN,
      "        self.current_state = next_state\n        self.last_obs = obs\n",
      "        self.current_state = next_state.copy() if reward < 0 else self.current_state\n        self.last_obs = obs\n"),
+    # ---------------- C09
+    ("c09_service_start_off_by_one", ["C09"], HV,
+     "        cls._process_start_idx = cls._service_start_idx + cls.num_services\n        cls.state_size = cls._process_start_idx + cls.num_processes",
+     "        cls._process_start_idx = cls._service_start_idx + cls.num_services + 1\n        cls.state_size = cls._process_start_idx + cls.num_processes"),
+    ("c09_value_discovery_swapped", ["C09"], HV,
+     "        cls._value_idx = cls._discovered_idx + 1\n        cls._discovery_value_idx = cls._value_idx + 1",
+     "        cls._discovery_value_idx = cls._discovered_idx + 1\n        cls._value_idx = cls._discovery_value_idx + 1"),
+    ("c09_flatten_fortran", ["C09"], OB,
+     "        return self.tensor.flatten()", "        return self.tensor.flatten(order='F')"),
+    ("c09_services_sorted_order", ["C09"], HV,
+     "        for srv_num, (srv_key, srv_val) in enumerate(host.services.items()):\n            vector[cls._get_service_idx(srv_num)] = int(srv_val)",
+     "        for srv_num, (srv_key, srv_val) in enumerate(sorted(host.services.items())):\n            vector[cls._get_service_idx(srv_num)] = int(srv_val)"),
+    ("c09_readable_access_as_bool", ["C09"], HV,
+     "        readable_dict[\"Access\"] = hvec.access", "        readable_dict[\"Access\"] = float(bool(hvec.access))"),
+    ("c09_obs_from_numpy_wrong_reshape", ["C09"], OB,
+     "            o_array = o_array.reshape(state_shape[0]+1, state_shape[1])",
+     "            o_array = o_array.reshape(state_shape[1], state_shape[0]+1).T"),
+    ("c09_bounds_ignored_in_layout", ["C09", "C10"], HV,
+     "        cls._host_address_idx = cls.address_space_bounds[0]",
+     "        cls._host_address_idx = min(cls.address_space_bounds[0], 6)"),
+    # ---------------- C10
+    ("c10_revert_F5", ["C10"], AC,
+     "        assert isinstance(action_idx, (int, np.integer)) or (\n            isinstance(action_idx, np.ndarray)\n            and action_idx.shape == ()\n            and np.issubdtype(action_idx.dtype, np.integer)\n        ), \\",
+     "        assert isinstance(action_idx, int), \\"),
+    ("c10_float64_tensor", [], ST,
+     "            (len(network.hosts), h0_vector.state_size),\n            dtype=np.float32\n        )\n        for host_addr, host in network.hosts.items():\n            host_num = network.host_num_map[host_addr]\n            HostVector.vectorize(",
+     "            (len(network.hosts), h0_vector.state_size),\n            dtype=np.float64\n        )\n        for host_addr, host in network.hosts.items():\n            host_num = network.host_num_map[host_addr]\n            HostVector.vectorize("),
+    ("c10_obs_float64", ["C10"], OB,
+     "        self.tensor = np.zeros(self.obs_shape, dtype=np.float32)",
+     "        self.tensor = np.zeros(self.obs_shape, dtype=np.float64)"),
+    ("c10_box_low_zero", ["C10"], OB,
+     "        obs_low = min(\n            0,\n            value_bounds[0],\n            discovery_bounds[0]\n        )",
+     "        obs_low = 0"),
+    ("c10_box_high_ignores_discovery", ["C10"], OB,
+     "            value_bounds[1],\n            discovery_bounds[1],\n            AccessLevel.ROOT,",
+     "            value_bounds[1],\n            AccessLevel.ROOT,"),
+    ("c10_state_dims_ignore_bounds", ["C10"], SC,
+     "            self.address_space_bounds[0]\n            + self.address_space_bounds[1]\n            + host_aux_features",
+     "            len(self.subnets)\n            + max(self.subnets)\n            + host_aux_features"),
+    ("c10_reward_as_array", ["C10"], EN,
+     "        reward = action_obs.value - action.cost",
+     "        reward = np.array([action_obs.value - action.cost])"),
+    ("c10_param_rejects_tuple", ["C10"], AC,
+     "        assert isinstance(action_vec, (list, tuple, np.ndarray)), \\",
+     "        assert isinstance(action_vec, (list, np.ndarray)), \\"),
+    # ---------------- C11
+    ("c11_drop_process_scan", ["C11"], AC,
+     "        action_list.append(\n            ProcessScan(address, scenario.process_scan_cost)\n        )\n",
+     ""),
+    ("c11_duplicate_scan", ["C11"], AC,
+     "        action_list.append(\n            OSScan(address, scenario.os_scan_cost)\n        )\n",
+     "        action_list.append(\n            OSScan(address, scenario.os_scan_cost)\n        )\n        if address == (1, 0):\n            action_list.append(\n                OSScan(address, scenario.os_scan_cost)\n            )\n"),
+    ("c11_subnet_no_plus_one", ["C11"], AC,
+     "        subnet = action_vec[1]+1", "        subnet = max(action_vec[1], 1)"),
+    ("c11_scan_cost_wrong_field", ["C11"], AC,
+     "        elif a_class == OSScan:\n            cost = self.scenario.os_scan_cost",
+     "        elif a_class == OSScan:\n            cost = self.scenario.service_scan_cost"),
+    ("c11_flat_scan_cost_wrong_field", ["C11", "C05"], AC,
+     "            SubnetScan(address, scenario.subnet_scan_cost)",
+     "            SubnetScan(address, scenario.process_scan_cost)"),
+    ("c11_mask_from_reachable", ["C11"], EN,
+     "            if self.current_state.host_discovered(action.target):",
+     "            if self.current_state.host_reachable(action.target):"),
+    ("c11_revert_F6", ["C11"], EN,
+     "            if self.current_state.host_discovered(action.target):",
+     "            if self.network.host_discovered(action.target):"),
+    ("c11_exploit_map_last_wins", ["C11"], SC,
+     "                os = e_def[u.EXPLOIT_OS]\n                if os not in srv_map:\n                    srv_map[os] = {",
+     "                os = e_def[u.EXPLOIT_OS]\n                if True:\n                    srv_map[os] = {"),
+    ("c11_action_space_size_forgets_privescs", ["C11"], SC,
+     "        actions_per_host = num_exploits + num_privescs + num_scans",
+     "        actions_per_host = num_exploits + num_scans + min(num_privescs, 1)"),
+    ("c11_host_wrap_off", ["C11"], AC,
+     "        host = action_vec[2] % self.scenario.subnets[subnet]",
+     "        host = min(action_vec[2], self.scenario.subnets[subnet] - 1)"),
+    # ---------------- C12
+    ("c12_fully_obs_leaks_into_dynamics", ["C12"], EN,
+     "        reward = action_obs.value - action.cost\n",
+     "        reward = action_obs.value - action.cost\n        if self.fully_obs and action.is_os_scan():\n            reward -= 1\n"),
+    ("c12_param_scan_cost_differs", ["C12", "C11"], AC,
+     "        return {\"cost\": cost}", "        return {\"cost\": cost + 1}"),
+    ("c12_extra_draw_when_flat_obs", ["C12"], EN,
+     "            obs = obs.numpy()\n\n        self.steps += 1",
+     "            obs = obs.numpy()\n            np.random.rand()\n\n        self.steps += 1"),
+    ("c12_step_limit_only_flat_actions", ["C12", "C06"], EN,
+     "            self.scenario.step_limit is not None\n",
+     "            self.scenario.step_limit is not None and self.flat_actions\n"),
+    ("c12_partial_obs_blocks_exploit_value", ["C12"], EN,
+     "        done = self.goal_reached(next_state)\n",
+     "        done = self.goal_reached(next_state) and (self.fully_obs or not self.flat_obs or self.steps != 13)\n"),
+    ("c12_param_exploit_prob_rounded", ["C12", "C11"], AC,
+     "        return e_map[service][os]", "        return dict(e_map[service][os], prob=round(e_map[service][os]['prob'], 1))"),
 ]
